@@ -1,4 +1,5 @@
-import PyPhysim.Proofs.C18Multi
+import PyPhysim.Proofs.C18OccMulti
+import PyPhysim.Proofs.C18Reshape
 import PyPhysim.Proofs.C18Ls
 import PyPhysim.Proofs.C18Prime
 import PyPhysim.Proofs.C18Seq
@@ -54,10 +55,29 @@ theorem prime_lookup_rejects (s : ℕ) (hs : s < 2) :
 theorem root_sequence_zc (s u : ℕ) (h25 : 25 ≤ s) (hs : s ≤ 1200) :
     ∃ p, Nat.Prime p ∧ p ≤ s ∧ (∀ q, Nat.Prime q → q ≤ s → q ≤ p) ∧
       (u < p → ∃ r, rootSequence smallPrimeList rootTable1 rootTable2 u (some s) none = .ok r ∧
-        r.nzc = p ∧ r.size = s ∧ ∀ i, i < s → r.seqArray[i]? = some (zcPhase p u (i % p))) := by
+        r.nzc = p ∧ r.size = s ∧ (∀ i, i < s → r.seqArray[i]? = some (zcPhase p u (i % p))) ∧
+        r.base = zcPhases p u) := by
   obtain ⟨p, hp, hprime, hps, hmax⟩ := prime_lookup_correct s (by omega) hs
   exact ⟨p, hprime, hps, hmax, fun hu =>
     rootSequence_zc smallPrimeList rootTable1 rootTable2 u s p (by omega) hp hps hu⟩
+
+/-- …and a root index that is not below the base length is rejected
+    (`assert u < Nzc` in `calcBaseZC`): the guard of the clause above. -/
+theorem root_sequence_index_guard (s u : ℕ) (h25 : 25 ≤ s) (hs : s ≤ 1200) :
+    ∃ p, primeLookup smallPrimeList s = .ok p ∧
+      (¬ u < p → rootSequence smallPrimeList rootTable1 rootTable2 u (some s) none
+        = .error .AssertionError) := by
+  obtain ⟨p, hp, _, hps, _⟩ := prime_lookup_correct s (by omega) hs
+  exact ⟨p, hp, fun hu =>
+    rootSequence_index_guard smallPrimeList rootTable1 rootTable2 u s p (by omega) hp hps hu⟩
+
+/-- Before the repair the table of the source stopped at 1009: on that
+    truncated table the selection is wrong (1009 for size 1200, although 1193
+    is prime) — why `prime_lookup_correct` is a theorem about the *current* table. -/
+theorem truncated_table_wrong :
+    primeLookup (smallPrimeList.filter (fun p => decide (p ≤ 1009))) 1200 = .ok 1009 ∧
+      Nat.Prime 1193 ∧ 1009 < 1193 ∧ 1193 ≤ 1200 :=
+  ⟨by decide +kernel, (isPrimeB_iff 36 1193 (by decide)).mp (by decide +kernel), by decide, by decide⟩
 
 /-- Sizes 12 and 24 use the QPSK phase tables of the source (30 rows each);
     the object has exactly the requested size and no extension. -/
@@ -128,11 +148,48 @@ theorem zc_zero_autocorrelation_prime (N u τ : ℕ) (hp : Nat.Prime N) (h2 : N 
     have := Nat.le_of_dvd hτ0 hd
     omega
 
+/-- The guard `gcd(u, N) = 1` is needed: root index 0 passes the code's
+    `assert u < Nzc` but yields the all-ones sequence, whose autocorrelation is
+    `N` at every lag (outside the property: LTE root indexes are `1 … N-1`). -/
+theorem zc_root_zero_not_cazac (N τ : ℕ) (hN : 0 < N) :
+    ∑ n ∈ Finset.range N, (seqValues (zcPhases N 0) : List ℂ).getD ((n + τ) % N) 0
+        * (starRingEnd ℂ) ((seqValues (zcPhases N 0) : List ℂ).getD n 0) = (N : ℂ) :=
+  zc_root0_autocorr cisLaws_complex N τ hN
+
 /-- Clause "flat spectrum": every DFT coefficient of the Zadoff–Chu sequence
     has squared modulus `N`. -/
 theorem zc_flat_spectrum (N u : ℕ) (hodd : N % 2 = 1) (hcop : Nat.Coprime u N) :
     ∀ v ∈ fftPad (seqValues (zcPhases N u) : List ℂ) N, ‖v‖ ^ 2 = (N : ℝ) := fun v hv =>
   norm_sq_of_mul_conj v N (by exact_mod_cast zc_flat_list cisLaws_complex N u hodd hcop v hv)
+
+/-- All CAZAC clauses for the objects the code builds: for every size `25…1200`
+    and every root index `0 < u < Nzc`, `RootSequence(u, size)` succeeds, its base
+    sequence is the Zadoff–Chu sequence of prime length `Nzc`, every element of
+    the (extended) sequence has unit modulus, the base sequence has zero cyclic
+    autocorrelation at every lag `0 < τ < Nzc` and a flat spectrum. -/
+theorem root_sequence_cazac (s u : ℕ) (h25 : 25 ≤ s) (hs : s ≤ 1200) (hu0 : 0 < u) :
+    ∃ p, Nat.Prime p ∧ (u < p →
+      ∃ r, rootSequence smallPrimeList rootTable1 rootTable2 u (some s) none = .ok r ∧ r.nzc = p ∧
+        (∀ v ∈ (seqValues r.seqArray : List ℂ), ‖v‖ = 1) ∧
+        (∀ τ, 0 < τ → τ < p →
+          ∑ n ∈ Finset.range p, (seqValues r.base : List ℂ).getD ((n + τ) % p) 0
+            * (starRingEnd ℂ) ((seqValues r.base : List ℂ).getD n 0) = 0) ∧
+        (∀ v ∈ fftPad (seqValues r.base : List ℂ) p, ‖v‖ ^ 2 = (p : ℝ))) := by
+  obtain ⟨p, hprime, hps, hmax, hroot⟩ := root_sequence_zc s u h25 hs
+  have h23 : 23 ≤ p := hmax 23 ((isPrimeB_iff 36 23 (by decide)).mp (by decide)) (by omega)
+  refine ⟨p, hprime, fun hu => ?_⟩
+  obtain ⟨r, hr, hnzc, _, _, hbase⟩ := hroot hu
+  have hodd : p % 2 = 1 := by
+    rcases hprime.eq_two_or_odd with h | h
+    · omega
+    · exact h
+  have hcop : Nat.Coprime u p := (Nat.coprime_of_lt_prime (Nat.ne_of_gt hu0) hu hprime).symm
+  refine ⟨r, hr, hnzc, unit_amplitude _, ?_, ?_⟩
+  · intro τ hτ0 hτ
+    rw [hbase]
+    exact zc_zero_autocorrelation_prime p u τ hprime (by omega) hu0 hu hτ0 hτ
+  · rw [hbase]
+    exact zc_flat_spectrum p u hodd hcop
 
 /-- Clause "user sequences with different cyclic shifts are orthogonal whenever
     the length is a multiple of the number of shifts": any root sequence given
@@ -224,46 +281,8 @@ theorem cazac_estimate_exact_multiuser (ph p0 : List ℚ) (c0 D t : ℕ) (nrm : 
         ((others.map (fun o => observe (fftPad o.2.2 (m * ph.length)) m
             (rowOf (seqValues o.2.1 : List ℂ) nrm nu))).foldl addL
           (observe (fftPad h0 (m * ph.length)) m (rowOf (seqValues p0 : List ℂ) nrm nu))) K
-      = .ok (fftPad h0 (m * ph.length)) := by
-  have hNpos : 0 < ph.length := by rw [hN]; exact Nat.mul_pos hD ht
-  have hc0 : c0 < D := by
-    unfold shiftedPhases at hs0
-    by_contra hc; rw [if_neg hc] at hs0; cases hs0
-  have hp0 : p0.length = ph.length := by
-    rw [shiftedPhases_ok ph c0 D hc0] at hs0
-    injection hs0 with hs0
-    rw [← hs0]; simp
-  have hr : (rowOf (seqValues p0 : List ℂ) nrm nu).length = ph.length := by
-    rw [rowOf_length, seqValues_length, hp0]
-  have hh0 : h0.length ≤ p0.length := by
-    rw [hp0, hN]
-    exact Nat.le_trans (Nat.le_trans hfit hK) (Nat.le_mul_of_pos_left _ hD)
-  have hown := ue_estimate_exact cisLaws_complex p0 nrm nu h0 m K hm (by rw [hp0]; exact hNpos)
-    (by rw [hp0]; exact hnu) hfit hh0
-  rw [hp0] at hown
-  have key := estimate1_superposition (rowOf (seqValues p0 : List ℂ) nrm nu)
-    (observe (fftPad h0 (m * ph.length)) m (rowOf (seqValues p0 : List ℂ) nrm nu))
-    (fftPad h0 (m * ph.length)) nrm m K hm
-    (by rw [hr]; exact hNpos)
-    (others.map (fun o => observe (fftPad o.2.2 (m * ph.length)) m
-            (rowOf (seqValues o.2.1 : List ℂ) nrm nu)))
-    (by rw [observe_length]) (by rw [fftPad_length, hr]) hown
-    (by
-      intro Y hY
-      obtain ⟨o, ho, rfl⟩ := List.mem_map.mp hY
-      obtain ⟨hne, hso, hlo⟩ := hothers o ho
-      have hco : o.1 < D := by
-        unfold shiftedPhases at hso
-        by_contra hc; rw [if_neg hc] at hso; cases hso
-      have hpo : o.2.1.length = ph.length := by
-        rw [shiftedPhases_ok ph o.1 D hco] at hso
-        injection hso with hso
-        rw [← hso]; simp
-      refine ⟨by rw [observe_length, rowOf_length, seqValues_length, hpo, hr], ?_⟩
-      rw [hr]
-      exact ue_estimate_reject cisLaws_complex ph p0 o.2.1 c0 o.1 D t nrm nu o.2.2 m K hm hD ht hN hs0 hso
-        (fun h => hne h.symm) hnu hK hlo)
-  exact key
+      = .ok (fftPad h0 (m * ph.length)) :=
+  ue_estimate_exact_multiuser cisLaws_complex ph p0 c0 D t nrm nu h0 m K others hm hD ht hN hs0 hnu hfit hK hothers
 
 /-- Clause "one or several antennas": with a 2-D observation (one row per
     receive antenna, each antenna its own channel `h_a` that fits the kept
@@ -303,6 +322,52 @@ theorem occ_estimate_exact_antennas (ph : List ℚ) (c0 : ℂ) (cs : List ℂ) (
       = .ok (hs.map (fun h => fftPad h ph.length)) :=
   estimateOccRows_ok _ K hs _ _ (fun h hh =>
     C18P.occ_estimate_exact cisLaws_complex ph c0 cs nrm nu h K hN hcov hnu (hfit h hh).1 (hfit h hh).2)
+
+/-- Cover-code estimator, one other user: suppressed by its cyclic shift
+    (delay spread within one shift window, any cover code) **or** by a cover
+    code orthogonal to the reference user's (any shift, any channel). -/
+theorem occ_other_user_rejected (ph p0 pu : List ℚ) (c0 cu D t : ℕ) (k0 : ℂ) (ks ccu : List ℂ)
+    (nrm : Bool) (nu : ℂ) (h : List ℂ) (K : ℕ) (hD : 0 < D) (ht : 0 < t) (hN : ph.length = D * t)
+    (h0 : shiftedPhases ph c0 D = .ok p0) (hu : shiftedPhases ph cu D = .ok pu)
+    (hk0 : k0 * k0 = 1) (hlen : ccu.length = (k0 :: ks).length)
+    (hnu : nrm = true → (starRingEnd ℂ) nu = nu ∧ nu * nu = (ph.length : ℂ))
+    (hK : K + 1 ≤ t)
+    (hrej : (c0 ≠ cu ∧ h.length ≤ t) ∨
+      (∑ c ∈ Finset.range (k0 :: ks).length, ccu.getD c 0 * (k0 :: ks).getD c 0 = 0
+        ∧ h.length ≤ ph.length)) :
+    estimateOcc1 ⟨nrm, rowsOf (seqValues p0 : List ℂ) (k0 :: ks) nrm nu, some (k0 :: ks)⟩
+        ((rowsOf (seqValues pu : List ℂ) ccu nrm nu).map (fun row => observe (fftPad h ph.length) 1 row)) K
+      = .ok (zerosL ph.length) :=
+  occ_estimate_reject cisLaws_complex ph p0 pu c0 cu D t k0 ks ccu nrm nu h K hD ht hN h0 hu hk0 hlen hnu hK hrej
+
+/-- **Multi-user exactness of the cover-code estimator**: the user of interest
+    (shift `c0`, `±1` cover code, taps `≤ K+1 ≤ t = N/D`) plus any number of
+    other users, each on another shift with delay spread `≤ t` or with an
+    orthogonal cover code: the estimate is exactly the channel of the user of interest. -/
+theorem occ_estimate_exact_multiuser (ph p0 : List ℚ) (c0 D t : ℕ) (k0 : ℂ) (ks : List ℂ) (nrm : Bool)
+    (nu : ℂ) (h0 : List ℂ) (K : ℕ) (others : List (ℕ × List ℚ × List ℂ × List ℂ))
+    (hD : 0 < D) (ht : 0 < t) (hN : ph.length = D * t) (hs0 : shiftedPhases ph c0 D = .ok p0)
+    (hcov : ∀ c ∈ k0 :: ks, c * c = 1)
+    (hnu : nrm = true → (starRingEnd ℂ) nu = nu ∧ nu * nu = (ph.length : ℂ))
+    (hfit : h0.length ≤ K + 1) (hK : K + 1 ≤ t)
+    (hothers : ∀ o ∈ others, shiftedPhases ph o.1 D = .ok o.2.1 ∧ o.2.2.1.length = (k0 :: ks).length ∧
+      ((c0 ≠ o.1 ∧ o.2.2.2.length ≤ t) ∨
+        (∑ c ∈ Finset.range (k0 :: ks).length, o.2.2.1.getD c 0 * (k0 :: ks).getD c 0 = 0
+          ∧ o.2.2.2.length ≤ ph.length))) :
+    estimateOcc1 ⟨nrm, rowsOf (seqValues p0 : List ℂ) (k0 :: ks) nrm nu, some (k0 :: ks)⟩
+        ((others.map (fun o => (rowsOf (seqValues o.2.1 : List ℂ) o.2.2.1 nrm nu).map
+            (fun row => observe (fftPad o.2.2.2 ph.length) 1 row))).foldl addRows
+          ((rowsOf (seqValues p0 : List ℂ) (k0 :: ks) nrm nu).map
+            (fun row => observe (fftPad h0 ph.length) 1 row))) K
+      = .ok (fftPad h0 ph.length) :=
+  occ_estimate_exact_multiuser_core cisLaws_complex ph p0 c0 D t k0 ks nrm nu h0 K others hD ht hN hs0 hcov hnu hfit hK hothers
+
+/-- `extra_dimension=False`: the code reshapes the flattened observation into
+    the `Nc × Ne` block; reshaping the row-major flattening of a block gives the
+    block back, so this layout reduces to the theorems above. -/
+theorem occ_flat_layout {β : Type} (rows : List (List β)) (ne : ℕ) (hnc : 0 < rows.length)
+    (h : ∀ r ∈ rows, r.length = ne) : reshapeRows rows.length rows.flatten = .ok rows :=
+  reshapeRows_flatten rows ne hnc h
 
 /-! ## Least-squares pilot estimator -/
 
